@@ -4,6 +4,7 @@ import (
 	"bytes"
 	"context"
 	"crypto/x509"
+	"encoding/asn1"
 	"errors"
 	"fmt"
 	"io"
@@ -44,6 +45,17 @@ var c18Shapes = []c18Shape{
 	{name: "two-urls-one-repeated", locations: []string{c18Delta(1), c18Delta(1), c18Delta(0)}, ext: func() []byte {
 		return pki.CDPValue([][]string{{"uri:" + c18Delta(1)}, {"uri:" + c18Delta(1)}, {"uri:" + c18Delta(0)}})
 	}},
+	// distribution points without a name (empty, or cRLIssuer only) next to one that carries the location: the location still counts
+	{name: "url-then-empty-point", locations: []string{c18Delta(0)}, ext: func() []byte {
+		return c18AppendPoints(pki.CDPValue([][]string{{"uri:" + c18Delta(0)}}), []byte{0x30, 0x00})
+	}},
+	{name: "url-then-point-with-crl-issuer-only", locations: []string{c18Delta(1)}, ext: func() []byte {
+		// DistributionPoint ::= SEQUENCE { cRLIssuer [2] GeneralNames { dNSName "ca.test" } }
+		return c18AppendPoints(pki.CDPValue([][]string{{"uri:" + c18Delta(1)}}), []byte{0x30, 0x0b, 0xa2, 0x09, 0x82, 0x07, 'c', 'a', '.', 't', 'e', 's', 't'})
+	}},
+	{name: "empty-point-then-url", locations: []string{c18Delta(0)}, ext: func() []byte {
+		return c18PrependPoints([]byte{0x30, 0x00}, pki.CDPValue([][]string{{"uri:" + c18Delta(0)}}))
+	}},
 	{name: "only-non-uri-names", ext: func() []byte { return pki.CDPValue([][]string{{"dns:crl.test"}}) }},
 	{name: "empty-sequence", ext: func() []byte { return []byte{0x30, 0x00} }},
 	{name: "https-then-http", locations: []string{"https://crl.test/c18/d0", c18Delta(1)}, ext: func() []byte {
@@ -55,6 +67,35 @@ var c18Shapes = []c18Shape{
 	{name: "malformed-name", malformed: true, ext: func() []byte { return []byte{0x30, 0x06, 0x30, 0x04, 0xa0, 0x02, 0x86, 0x05} }},
 	{name: "uri-then-non-uri(dc)", dontCare: true, locations: []string{c18Delta(0)}, ext: func() []byte { return pki.CDPValue([][]string{{"uri:" + c18Delta(0), "dns:crl.test"}}) }},
 	{name: "non-uri-then-uri(dc)", dontCare: true, ext: func() []byte { return pki.CDPValue([][]string{{"dns:crl.test", "uri:" + c18Delta(0)}}) }},
+}
+
+// c18AppendPoints / c18PrependPoints add raw DistributionPoint encodings to an encoded CRLDistributionPoints value.
+func c18AppendPoints(cdp []byte, points ...[]byte) []byte {
+	var outer asn1.RawValue
+	if _, err := asn1.Unmarshal(cdp, &outer); err != nil {
+		panic(mc.HarnessError{Msg: "c18: " + err.Error()})
+	}
+	body := append([]byte(nil), outer.Bytes...)
+	for _, p := range points {
+		body = append(body, p...)
+	}
+	out, err := asn1.Marshal(asn1.RawValue{Class: 0, Tag: 16, IsCompound: true, Bytes: body})
+	if err != nil {
+		panic(mc.HarnessError{Msg: "c18: " + err.Error()})
+	}
+	return out
+}
+
+func c18PrependPoints(point []byte, cdp []byte) []byte {
+	var outer asn1.RawValue
+	if _, err := asn1.Unmarshal(cdp, &outer); err != nil {
+		panic(mc.HarnessError{Msg: "c18: " + err.Error()})
+	}
+	out, err := asn1.Marshal(asn1.RawValue{Class: 0, Tag: 16, IsCompound: true, Bytes: append(append([]byte(nil), point...), outer.Bytes...)})
+	if err != nil {
+		panic(mc.HarnessError{Msg: "c18: " + err.Error()})
+	}
+	return out
 }
 
 type c18World struct {
